@@ -134,6 +134,7 @@ def run (payload : String) : String :=
   if Generated.maxFractionDigits != Num.maxFractionDigits then "const-mismatch MAX_FRACTION_DIGITS" else
   match payload.splitOn " " with
   | [loc, valTok, optTok, keyTok] =>
+    if (localeShape loc).isNone then "unsupported" else
     match parseVal valTok, parseOpts optTok, parseKeys keyTok with
     | .bad, _, _ | _, .bad, _ | _, _, none => "bad-case"
     | .unsupported, _, _ | _, .unsupported, _ => "unsupported"
